@@ -36,6 +36,7 @@ type verifC04Case struct {
 	logs      []LogLevel
 	outcome   int
 	value     int
+	stamped   bool // the RpcError the handler returns already carries a RequestID (relayed from a downstream call)
 }
 
 func verifC04Build(maxLogs int, symbolicLogLevels bool) *verifC04Case {
@@ -59,6 +60,9 @@ func verifC04Build(maxLogs int, symbolicLogLevels bool) *verifC04Case {
 		}
 	}
 	c.outcome = verifChoice("outcome", 4)
+	if c.outcome == verifOutRpcError {
+		c.stamped = verifNondetBool("error_carries_foreign_request_id")
+	}
 	return c
 }
 
@@ -73,7 +77,11 @@ func (c *verifC04Case) install() {
 		case verifOutError:
 			return nil, errors.New("handler failed")
 		case verifOutRpcError:
-			return nil, &RpcError{Type: "ValueError", Message: "bad input", Kind: "k1"}
+			e := &RpcError{Type: "ValueError", Message: "bad input", Kind: "k1"}
+			if c.stamped {
+				e.RequestID = "downstream-0007"
+			}
+			return nil, e
 		}
 		panic("handler panicked")
 	}
@@ -148,7 +156,7 @@ func (c *verifC04Case) check(st *verifOutStream) {
 // Pipe: logs then value or error.
 //
 //verif:use ipc pipe handler
-//verif:bound one unary call through serveOne: valued or void method; requested level absent or ANY byte string of length 4, 5 or 9 (the six level names and every unknown name of those lengths); handler emits 0..2 logs (quick: levels from the six names plus one unknown; thorough: ANY strings of those lengths), then returns a value / error / RpcError with a kind / panics; request id present or absent. Abstract IPC, ghost handler, result serialisation stubbed (value fidelity through Arrow is outside the claim).
+//verif:bound one unary call through serveOne: valued or void method; requested level absent or ANY byte string of length 4, 5 or 9 (the six level names and every unknown name of those lengths); handler emits 0..2 logs (quick: levels from the six names plus one unknown; thorough: ANY strings of those lengths), then returns a value / error / RpcError with a kind (fresh, or relayed from a downstream call and still carrying that call's RequestID) / panics; request id present or absent. Abstract IPC, ghost handler, result serialisation stubbed (value fidelity through Arrow is outside the claim).
 func verifH_C04_pipe() {
 	verifResetIPC()
 	verifResetHandler()
